@@ -204,6 +204,95 @@ def k_rt_gate_format(ctx, envs):
                 ctx.validated()
 
 
+def history_stream(ctx):
+    """the verdict is taken at EVERY call (the model's gate is a function of the predicate in force and the object,
+    evaluated per call): a callable that was allowed before and is rejected now must not run — the marker was set
+    after the first call, the overridden predicate depends on environment state, or on the instance a shared
+    function is bound to"""
+    from jinja2.exceptions import SecurityError
+    from jinja2.sandbox import SandboxedEnvironment
+
+    class Doc:
+        def __init__(self, locked, rec, tag):
+            self.locked, self.rec, self.tag = locked, rec, tag
+
+        def archive(self):
+            self.rec.ran.append(self.tag)
+            return "A"
+
+    class StatefulEnv(SandboxedEnvironment):
+        frozen = False
+
+        def is_safe_callable(self, obj):
+            if self.frozen:
+                return False
+            owner = getattr(obj, "__self__", None)
+            if isinstance(owner, Doc) and owner.locked:
+                return False
+            return super().is_safe_callable(obj)
+
+    def run(env, src, data):
+        try:
+            env.from_string(src).render(**data)
+            return "ok"
+        except SecurityError:
+            return "SecurityError"
+        except Exception as e:  # noqa: BLE001
+            return "exc:" + type(e).__name__
+
+    for cls_name, cls in (("default", SandboxedEnvironment), ("stateful-override", StatefulEnv)):
+        for mode in ("sync", "async"):
+            scenarios = []
+            # 1. marker set between two renders of the same environment
+            for marker in ("unsafe_callable", "alters_data"):
+                for shape in ("{{ f() }}", "{% set g = f %}{{ g(1) }}", "{% for x in [1] %}{{ d.f(x) }}{% endfor %}"):
+                    scenarios.append(("marker-set-later:" + marker, shape, marker))
+            # 2. one template: allowed instance first, locked instance second (same underlying function)
+            if cls is StatefulEnv:
+                scenarios.append(("instance-dependent", "{{ a.archive() }}|{{ b.archive() }}", None))
+                scenarios.append(("instance-dependent-loop", "{% for o in [a, b] %}{{ o.archive() }}{% endfor %}", None))
+                scenarios.append(("frozen-later", "{{ f() }}", None))
+            for name, shape, marker in scenarios:
+                env = cls(enable_async=(mode == "async"))
+                rec = Rec()
+                case = {"kind": "history", "scenario": name, "template": shape, "env": cls_name, "mode": mode}
+                ran_rejected = False
+                if name.startswith("marker-set-later"):
+                    f = rec.function("f")
+                    first = run(env, shape, {"f": f, "d": {"f": f}})
+                    n1 = len(rec.ran)
+                    setattr(f, marker, True)
+                    second = run(env, shape, {"f": f, "d": {"f": f}})
+                    ran_rejected = len(rec.ran) > n1
+                    expected = ("ok", "SecurityError")
+                    if cls is StatefulEnv:
+                        pass
+                    observed = (first, second)
+                elif name.startswith("instance-dependent"):
+                    a, b_ = Doc(False, rec, "free"), Doc(True, rec, "locked")
+                    observed = (run(env, shape, {"a": a, "b": b_}),)
+                    ran_rejected = "locked" in rec.ran
+                    expected = ("SecurityError",)
+                else:
+                    f = rec.function("f")
+                    first = run(env, shape, {"f": f})
+                    n1 = len(rec.ran)
+                    env.frozen = True
+                    second = run(env, shape, {"f": f})
+                    ran_rejected = len(rec.ran) > n1
+                    observed, expected = (first, second), ("ok", "SecurityError")
+                case["observed"] = list(observed)
+                ctx.case(sample=case if name == "instance-dependent" else None, key=("history", name, shape, cls_name, mode))
+                ctx.count("history_" + name.split(":")[0])
+                if ran_rejected:
+                    shared.reject_once(ctx, case, f"a callable that was allowed earlier ran although the predicate in force rejects it now "
+                                                  f"({name}, {cls_name}, {mode}, {shape!r})", f"C18:history:{name.split(':')[0]}")
+                elif tuple(observed) != expected:
+                    ctx.model_mismatch("K-rt the gate is evaluated at every call", case, list(expected), list(observed), None)
+                else:
+                    ctx.validated()
+
+
 def shared_bytecode_cache(ctx):
     """a plain and a sandboxed environment that share one bytecode cache and one loader: the sandboxed
     environment must still gate calls (root cause: the cache key ignores the environment's code-generation
@@ -414,6 +503,7 @@ def run(ctx):
     k_rt_gate(ctx, envs)
     k_rt_gate_format(ctx, envs)
     shared_bytecode_cache(ctx)
+    history_stream(ctx)
     shared.k_gen(ctx, jinja2, ctx.size(1500, 15000), ctx.size(250, 2500), "C18")
     for (c, _), shape, pol, mode in itertools.product(callables_under_test(), SHAPES, ("default", "overridden"), ("sync", "async")):
         case = {"kind": "render", "callable": c, "shape": shape, "policy": pol, "mode": mode}
